@@ -104,7 +104,19 @@ func VerifC01Obj() {
 func VerifC01Keyed() {
 	n := vParam("N", 2)
 	m := vParam("M", n)
-	how := vChoice(2)
+	how := vChoice(vParam("WRAPS", 2))
+	if vParam("SCALARS", 0) == 1 {
+		// keyed objects next to plain numbers (which may equal an object's key value)
+		mk := func(max int) jsonArray {
+			a := vKeyedArray(max)
+			for i := vChoice(vParam("NSCAL", 1) + 1); i > 0; i-- {
+				a = append(a, vNum())
+			}
+			return a
+		}
+		vC01Check(vWrap(mk(n), how), vWrap(mk(m), how), optSetKeys, "c01.keyedmix")
+		return
+	}
 	vC01Check(vWrap(vKeyedArray(n), how), vWrap(vKeyedArray(m), how), optSetKeys, "c01.keyed")
 }
 
